@@ -119,6 +119,22 @@ class Sched:
             t.join(5)
         self.free = True
 
+    def idle(self):
+        """the calling actor parks for one turn that does nothing (the harness waiting between two calls into the
+        library, so that the other actors can be served according to the schedule)"""
+        return self.turn(lambda stale: (True, None), progress=False, kind="idle")
+
+    def drain(self, schedule):
+        """serve exactly `schedule` while the caller does nothing (its own entries are idle turns)"""
+        self.begin(schedule)
+        n = len(self.schedule)
+        while self.pos < n:
+            self.idle()
+
+    def live_workers(self):
+        with self.cv:
+            return sorted(a for a in self.parked if a != 0)
+
     # ---- scheduling
     def _decide(self):
         """called with the lock held, when every live actor is parked and nothing is granted"""
